@@ -194,6 +194,15 @@ def ref_call(log):
             return Fraction(len(args[0].v)) if isinstance(args[0], Vec) else Fraction(1)
         if name == "<builtin>norm_1":
             return _fsum(abs(x) for x in args[0].v) if isinstance(args[0], Vec) else abs(args[0])
+        if name == "<builtin>norm_2":
+            # only used where values are not compared (C12); exact when the sum of squares is a perfect square
+            import math
+            sq = _fsum(x * x for x in args[0].v) if isinstance(args[0], Vec) else args[0] * args[0]
+            n_, d_ = sq.numerator, sq.denominator
+            rn, rd = math.isqrt(n_), math.isqrt(d_)
+            if rn * rn == n_ and rd * rd == d_:
+                return Fraction(rn, rd)
+            raise Inexact()
         if name == "<builtin>norm_inf":
             return max(abs(x) for x in args[0].v) if isinstance(args[0], Vec) else abs(args[0])
         if name == "<builtin>dot_product":
